@@ -341,8 +341,9 @@ class Effects:
         while t[0] in ('sub',):
             t = t[1]
         mc0 = method_call(t) if t[0] == 'call' else None
-        if mc0 and mc0[1] in ('setdefault', 'get') and mc0[0][0] in ('dict', 'list'):
-            return True
+        if mc0 and mc0[1] in ('setdefault', 'get'):
+            # d.setdefault(k, {}) / d.get(k): a nested container of d
+            return Effects.fresh_container(mc0[0])
         if t[0] in ('dict', 'list', 'set', 'comp', 'tuple'):
             return True
         c = callee(t)
